@@ -953,8 +953,9 @@ func (h *harness) webGrammar() {
 		h.runWeb("standalone", h.router, c, okScript, true)
 		for k := 0; k < 2; k++ {
 			sc := h.scripts[1+rnd.Intn(len(h.scripts)-1)]
-			if sc.name == "body/slow" || sc.name == "body/huge-8MiB" {
-				continue
+			if sc.name == "body/slow" || strings.HasPrefix(sc.name, "body/huge") || sc.name == "body/exactly-limit" {
+				// the MiB-sized bodies run in the script matrix only (cost)
+				sc = okScript
 			}
 			h.runWeb("standalone", h.router, c, sc, rnd.Intn(4) != 0)
 		}
